@@ -50,6 +50,9 @@ type Plan struct {
 	DirByte int    `json:"dirbyte,omitempty"` // with SameDir: that first byte (0 = 0x10); the first and the last subdirectories of the scan are the interesting ones
 	Sizes []int  `json:"sizes"`
 	Steps []Step `json:"steps"`
+	// NoSubdir: one of the cache's 256 subdirectories (one that holds none of the plan's files) is missing,
+	// as after a partial restore or a clean-up by hand; Trim has to do all its work in the others
+	NoSubdir string `json:"no_subdir,omitempty"`
 	// Sched decides the interleaving of whatever goroutines the code under test itself starts (the
 	// histories are driven by one task)
 	Sched simrt.Sched `json:"sched"`
@@ -220,6 +223,9 @@ func genPlan(t *rapid.T, tier string) any {
 		}
 		p.Steps = append(p.Steps, s)
 	}
+	if rapid.IntRange(0, 7).Draw(t, "nosubdir") == 0 {
+		p.NoSubdir = rapid.SampledFrom([]string{"00", "01", "80", "fe"}).Draw(t, "nosubdirname")
+	}
 	p.Sched = gen.Sched(t, 300)
 	return p
 }
@@ -282,6 +288,7 @@ func run(t *testing.T, plan any, keep bool) *simcheck.Outcome {
 	modelRecOK := false
 	crashes, rmFaults, recFaults, recWriteFaults, clockDuring := 0, 0, 0, 0, 0
 	lookHits, lookDuringScan := 0, 0
+	subdirMissing, trimsWithMissingSubdir := false, 0
 	trimsDue, trimsNotDue, removed, keptNearBoundary := 0, 0, 0, 0
 	jumped := false
 
@@ -296,6 +303,28 @@ func run(t *testing.T, plan any, keep bool) *simcheck.Outcome {
 			return
 		}
 		simtime.Advance(time.Duration(p.Start) * time.Second)
+		if p.NoSubdir != "" {
+			inUse := false
+			for i := 0; i < nIDs; i++ {
+				id := cachekit.ActionID(i)
+				if p.SameDir {
+					id[0] = 0x10
+					if p.DirByte != 0 {
+						id[0] = byte(p.DirByte)
+					}
+				}
+				inUse = inUse || fmt.Sprintf("%02x", id[0]) == p.NoSubdir
+			}
+			for _, o := range outIDs {
+				inUse = inUse || fmt.Sprintf("%02x", o[0]) == p.NoSubdir
+			}
+			for _, n := range foreignNames {
+				inUse = inUse || strings.HasPrefix(n, p.NoSubdir+"/")
+			}
+			if !inUse && os.Remove(filepath.Join(dir, p.NoSubdir)) == nil {
+				subdirMissing = true
+			}
+		}
 		for si, st := range p.Steps {
 			now := simtime.Now()
 			id := cachekit.ActionID(st.ID)
@@ -548,6 +577,11 @@ func run(t *testing.T, plan any, keep bool) *simcheck.Outcome {
 					simos.OnOp(nil)
 					gate = true // a Trim that was not due lists nothing: the lookup then simply follows it
 					simrt.Block("look.join", func() bool { return lookDone })
+					if subdirMissing {
+						// an error is not demanded and not forbidden here; the clauses below are asserted either way
+						trimsWithMissingSubdir++
+						err = nil
+					}
 					if err != nil {
 						out.Violate("trim-error", "%s: Trim failed in a fault-free run: %v", where, err)
 						return
@@ -699,6 +733,7 @@ func run(t *testing.T, plan any, keep bool) *simcheck.Outcome {
 	out.Count("fired_remove_failed_during_trim", int64(rmFaults))
 	out.Count("fired_trim_record_unreadable", int64(recFaults))
 	out.Count("fault_clock_moved_during_trim", int64(clockDuring))
+	out.Count("trims_with_a_cache_subdirectory_missing", int64(trimsWithMissingSubdir))
 	out.Count("lookup_released_during_trim_scan", int64(lookDuringScan))
 	out.Count("lookup_concurrent_with_trim_hit", int64(lookHits))
 	out.Count("fired_trim_record_write_failed", int64(recWriteFaults))
@@ -729,7 +764,7 @@ var harness = &simcheck.Harness{
 	Level:    "exploration",
 	Rule: "rapid draws a history of up to 16 (quick) / 30 (thorough) steps: Put, Get, GetBytes, GetFile, OutputFile, clock advances drawn mostly from boundary values " +
 		"(1s ... 24h+-1m, 5d+-1m, 5d1h+-1s/1m, 30d), Trim, trim-record rewrites (valid with recent/old/future offsets, garbage, empty, missing), foreign files, " +
-		"directly aged entry files, and (a quarter of the plans) backward clock jumps; plus macro steps (look an entry up after a gap of under two hours; move the clock to an entry file's last use + 5d or 5d1h +- jitter and Trim; move it to the trim record + 24h +- jitter and Trim; a Trim whose process halts before its k-th file operation; a Trim one of whose removals fails with EPERM/EBUSY/EIO/EACCES - that file may stay, every other stale entry must still go; a Trim during which the trim record cannot be opened or read - a due trim must still do all its work; a Trim whose record write fails with ENOSPC - it may report failure, later trims must work; a Trim during whose scan the clock moves forward by 1 s to 59 min; a Trim during whose scan another goroutine looks an entry up on the same handle, released at a drawn directory listing and then scheduled freely), half the plans with all action ids in one cache subdirectory, a third starting with a store / two lookups / trim-at-threshold scenario, foreign non-empty directories with entry-like names inside an entry subdirectory; non-trivial = the history contains a Trim; " +
+		"directly aged entry files, and (a quarter of the plans) backward clock jumps; plus macro steps (look an entry up after a gap of under two hours; move the clock to an entry file's last use + 5d or 5d1h +- jitter and Trim; move it to the trim record + 24h +- jitter and Trim; a Trim whose process halts before its k-th file operation; a Trim one of whose removals fails with EPERM/EBUSY/EIO/EACCES - that file may stay, every other stale entry must still go; a Trim during which the trim record cannot be opened or read - a due trim must still do all its work; a Trim whose record write fails with ENOSPC - it may report failure, later trims must work; a Trim during whose scan the clock moves forward by 1 s to 59 min; an eighth of the plans with one of the cache's subdirectories missing; a Trim during whose scan another goroutine looks an entry up on the same handle, released at a drawn directory listing and then scheduled freely), half the plans with all action ids in one cache subdirectory, a third starting with a store / two lookups / trim-at-threshold scenario, foreign non-empty directories with entry-like names inside an entry subdirectory; non-trivial = the history contains a Trim; " +
 		"distinct by the hash of the intercepted file-operation sequence",
 	Gen:     genPlan,
 	NewPlan: func() any { return &Plan{} },
